@@ -92,7 +92,11 @@ def _run_find(ctx, tid, ys, dxs, an, ad, minn, coord_kind, yscale=1.0, xscale=1.
     mn = sc.index(minn) if minn_as_var else minn
     try:
         pl = filtering.find_plateaus(da, atol=atol, min_n_points=mn)
-    except RuntimeError:
+    except RuntimeError as e:
+        if 'dimension labels' in str(e):
+            # scipp's per-process table of dimension labels is full (find_plateaus takes a fresh uuid label per
+            # call): nothing this process does from now on says anything about the property
+            raise MachineryError(f'scipp dimension-label table exhausted in this process: {e}') from None
         ev.update(out='raised', bins=[], same=True, col=[])
         return ev, False
     except Exception as e:  # noqa: BLE001
@@ -256,12 +260,66 @@ def _py_inphase(x, ref, rtol):
     return a or b
 
 
+class _Collector:
+    """Stands in for ctx inside a worker process: what the driver reports is merged by the parent."""
+
+    def __init__(self):
+        self.violations, self.cases = [], []
+
+    def violation(self, key, detail=None):
+        self.violations.append((key, detail))
+
+    def case(self, nontrivial_id=None):
+        self.cases.append(nontrivial_id)
+
+
+def _find_jobs(jobs):
+    """One chunk of find_plateaus / collapse_plateaus executions in a worker process.
+    job = (tid, ys, dxs, an, ad, minn, kind, yscale, xscale, with_var, minn_as_var, tag)"""
+    col = _Collector()
+    out = []
+    try:
+        for tid, ys, dxs, an, ad, minn, kind, yscale, xscale, with_var, minn_as_var, tag in jobs:
+            ev, ok = _run_find(col, tid, ys, dxs, an, ad, minn, kind, yscale, xscale, with_var=with_var,
+                               minn_as_var=minn_as_var)
+            out.append((ev, ok, (tag if ok and _nontrivial(ys, dxs, an, ad) else None)))
+    except MachineryError as e:
+        return {'machinery': str(e)}
+    return {'out': out, 'violations': col.violations}
+
+
+def _run_jobs(ctx, jobs):
+    """find_plateaus takes one of scipp's ~65 000 per-process dimension labels per call (a uuid) and never gives
+    it back, so the calls are spread over forked worker processes that each make at most ~12 000 of them."""
+    import multiprocessing as mp
+    import os
+
+    chunks = [jobs[i:i + 3000] for i in range(0, len(jobs), 3000)]
+    nproc = max(1, min(int(os.environ.get('VERIF_PROCS', '8')), len(chunks)))
+    with mp.get_context('fork').Pool(nproc, maxtasksperchild=2) as pool:
+        results = pool.map(_find_jobs, chunks, chunksize=1)
+    events, returned = [], 0
+    for r in results:
+        if 'machinery' in r:
+            raise MachineryError(r['machinery'])
+        for key, detail in r['violations']:
+            ctx.violation(key, detail)
+        for ev, ok, nid in r['out']:
+            events.append(ev)
+            returned += ok
+            ctx.case(nontrivial_id=nid)
+    return events, returned
+
+
 def run(ctx):
     ctx.rule = RULE
     ctx.assume('float arithmetic on the generated inputs is exact (integers x powers of two), so the '
                'integer events handed to TLC are exactly the values the code saw')
     ctx.assume('a RuntimeError from the documented total-drift guard is an allowed outcome '
                '(the property constrains returns only)')
+    ctx.assume('find_plateaus consumes one of scipp\'s ~65 000 per-process dimension labels per call (uuid label, never '
+               'released: the 65 000th call in one process fails, and so does every later scipp operation with a new label); '
+               'an observation outside the property (DESIGN §13) - the calls are spread over worker processes')
     # ---- 1. design: TLC exhaustive + negative control
     cfg = 'MC_Plateaus_thorough.cfg' if ctx.thorough else 'MC_Plateaus.cfg'
     res = ctx.tlc('chopper/MC_Plateaus.tla', cfg, timeout=1500, coverage=False)
@@ -305,6 +363,7 @@ def run(ctx):
         short = [c for c in allcases if len(c[0]) <= 3]
         long_ = [c for c in allcases if len(c[0]) > 3]
         allcases = short + ctx.rng.sample(long_, 1500)
+    jobs = []
     for ys, dxs, (an, ad) in allcases:
         kind = kinds[tid % 3]
         n = len(ys)
@@ -312,11 +371,8 @@ def run(ctx):
         # float coordinates: scale by powers of two; int/datetime keep model units
         yscale = 2.0 ** ((tid % 5) - 2)
         xscale = 2.0 ** ((tid % 7) - 3) if kind == 'float' else 1.0
-        ev, ok = _run_find(ctx, tid, ys, dxs, an, ad, minn, kind, yscale, xscale,
-                           with_var=tid % 2 == 0, minn_as_var=tid % 4 == 1)
-        events.append(ev)
-        returned += ok
-        ctx.case(nontrivial_id=('f', ys, dxs, an, ad, minn, kind) if ok and _nontrivial(ys, dxs, an, ad) else None)
+        jobs.append((tid, ys, dxs, an, ad, minn, kind, yscale, xscale, tid % 2 == 0, tid % 4 == 1,
+                     ('f', ys, dxs, an, ad, minn, kind)))
         tid += 1
     # random long series
     nrand = 1500 if ctx.thorough else 300
@@ -342,13 +398,12 @@ def run(ctx):
             ys.append(min(max(level + rng.randrange(-1, 2), 0), 2000))
         kind = rng.choice(kinds)
         minn = rng.choice([1, 2, 3, max(1, n // 4), n])
-        ev, ok = _run_find(ctx, tid, ys, dxs, an, ad, minn, kind, 2.0 ** rng.choice([-40, -8, -3, 0, 1, 5, 30]),
-                           2.0 ** rng.choice([-30, -8, -1, 0, 3, 20]) if kind == 'float' else 1.0,
-                           with_var=rng.random() < 0.5)
-        events.append(ev)
-        returned += ok
-        ctx.case(nontrivial_id=('r', tid) if ok and _nontrivial(ys, dxs, an, ad) else None)
+        jobs.append((tid, ys, dxs, an, ad, minn, kind, 2.0 ** rng.choice([-40, -8, -3, 0, 1, 5, 30]),
+                     2.0 ** rng.choice([-30, -8, -1, 0, 3, 20]) if kind == 'float' else 1.0, rng.random() < 0.5, False,
+                     ('r', tid)))
         tid += 1
+    evs, returned = _run_jobs(ctx, jobs)
+    events += evs
     events += _inphase_events(ctx, tid, 400 if ctx.thorough else 120)
     for e in events[:2] + events[-1:]:
         ctx.sample(e)
